@@ -2,6 +2,9 @@
 mod colors;
 mod m_c16;
 mod rng;
+mod tuikit;
+mod m_c17;
+mod m_c18;
 
 use std::io::Write;
 
@@ -14,6 +17,8 @@ impl Out {
     pub fn case(&mut self, input: &str, output: &str, oracle: &str) {
         writeln!(self.w, "{} {} => {} ## {}", self.n, input, output, oracle).unwrap();
         self.n += 1;
+        // a hang in the code under test must not hide the cases before it
+        self.w.flush().unwrap();
     }
     pub fn stat(&mut self, key: &str, val: impl std::fmt::Display) {
         writeln!(self.w, "#stat {key} {val}").unwrap();
@@ -50,6 +55,8 @@ fn main() {
     let mut out = Out { w: std::io::BufWriter::new(std::io::stdout()), n: 0 };
     match mode.as_str() {
         "c16" => m_c16::run(&args, &mut out),
+        "c17" => m_c17::run(&args, &mut out),
+        "c18" => m_c18::run(&args, &mut out),
         other => { eprintln!("unknown mode {other}"); std::process::exit(2); }
     }
     out.w.flush().unwrap();
